@@ -7,6 +7,8 @@ from .. import comp, e1, gen, harness, probes
 from . import base
 from .c06 import FIXED
 
+HDR = base.witness.HDR
+
 PROP = "C02"
 SOLVER = {'functions_encoded': ['stationeers_pytrapic.compiler.compile_code under 32 option vectors (executed; outputs are the object of the encoding)', 'emitted IC10 programs -> vf.ic10.Machine (symbolic), pairwise trace equivalence']}
 
@@ -32,6 +34,12 @@ def run(tier: str) -> int:
     vectors = comp.all_option_vectors()
     n = 120 if tier == "thorough" else 12
     progs = [(f"fixed:{k}", v, []) for k, v in FIXED.items()]
+    # every emitted line is the first instruction of its own (long) source line: with source comments on
+    # no line has room for the version note
+    progs.append(("fixed:all_lines_commented", HDR + "level = d0.Setting  # the level of the tank in percent, read once per tick\nif level > 5:  # above the minimum level the pump may run\n"
+                  "    d1.Setting = 1  # switch the pump on while there is enough liquid\nd2.Setting = level  # show the level on the display\n"
+                  "if level > 90:  # close the inlet valve when the tank is nearly full\n    d3.Setting = level  # report the level that closed the inlet valve\n"
+                  "d4.Setting = 0  # the last statement of the program, also with a long comment\n", []))
     progs += [(f"probe:{k}", v, []) for k, v in probes.call_probes() + probes.call_matrix()]
     for sp in base.gen_specs(n, cfg(), tier, salt=23):
         progs.append((sp["name"], sp["sources"], sp["features"]))
@@ -42,8 +50,8 @@ def run(tier: str) -> int:
     for i, (name, src, feats) in enumerate(progs):
         items.append(("vectors", dict(
             name=name, sources=src, features=feats, tier=tier, vectors=vectors, base={},
-            textual=TEXTUAL if (tier == "thorough" or i % 3 == 0) else TEXTUAL[-1:],
-            textual_on=tex_on,
+            textual=TEXTUAL if (tier == "thorough" or i % 3 == 0 or name.startswith("fixed:")) else TEXTUAL[-1:],
+            textual_on=tex_on + ([{"remove_labels": True}, {"remove_labels": True, "inline_functions": False}] if name.startswith("fixed:") else []),
             pragma=vectors if tier == "thorough" else [vectors[(i * 7 + j * 5) % 32] for j in range(4)],
             timeout=180 if tier == "thorough" else 90)))
     results = harness.pmap(e1.run_task, items)
